@@ -647,7 +647,7 @@ class Gen:
 
     def gstr(self, maxlen=4):
         r = self.rng
-        return [r.choice(ALPHA[:3] if r.random() < 0.7 else ALPHA) for _ in range(r.randint(0, maxlen))]
+        return [r.choice(ALPHA[:3] if r.random() < 0.6 else ALPHA) for _ in range(r.randint(0, maxlen))]
 
     def lit(self, t, depth):
         r = self.rng
@@ -889,6 +889,19 @@ def law_cases(g: Gen) -> List[Any]:
     n = len(li[1])
     for j in (-1, -n, -n - 1, n, n + 1, I_MIN, I_MAX):
         out.append(["idx", li, ["i", j]])
+    # size counts code points; has()/select/index on a map whose values may be falsy (0, "", false, [], {})
+    u = ["s", [r.choice(ALPHA) for _ in range(r.randint(0, 5))]]
+    out.append(["==", [r.choice(["size", "msize"]), u], ["i", len(u[1])]])
+    vt = r.choice([("i",), ("u",), ("b",), ("s",), ("L", ("i",)), ("M", ("s",), ("i",))])
+    falsy = {"i": ["i", 0], "u": ["u", 0], "b": ["b", False], "s": ["s", []], "L": ["L", []], "M": ["M", []]}[vt[0]]
+    names = r.sample(FIELDS, r.randint(1, 3))
+    m = ["M", [[["s", [ord(c) for c in nm]], (falsy if r.random() < 0.6 else g.lit(vt, 1))] for nm in names]]
+    for nm in names + [r.choice(["zz", "k", "a"])]:
+        f = [ord(c) for c in nm]
+        out.append(["has", f, m])
+        out.append(["==", ["has", f, m], ["in", ["s", f], m]])
+    nm = r.choice(names)
+    out.append(["==", ["sel", [ord(c) for c in nm], m], ["idx", m, ["s", [ord(c) for c in nm]]]])
     return out
 
 
@@ -937,7 +950,7 @@ class C09(Prop):
             e = g.expr(t, rng.randint(1, 4), [])
             for rn in ("I", "C"):
                 cases.append({"kind": "expr", "runner": rn, "e": e})
-        for i in range(30 if quick else 500):
+        for i in range(22 if quick else 500):
             for e in law_cases(g):
                 for rn in ("I", "C"):
                     cases.append({"kind": "expr", "runner": rn, "e": e})
@@ -1053,7 +1066,8 @@ def _flows_pybool(n) -> bool:
 
 def compiled_has_pybool(c) -> bool:
     """D6 (finding, template pinned): the transpiled has() yields a native Python bool, which `!`, the
-    condition of `?:`, `&&`/`||` against another non-BoolType and the all/exists fold reject (TypeError)."""
+    condition of `?:`, `&&`/`||` against another non-BoolType, the all/exists fold and a map key lookup
+    reject (TypeError)."""
     if c.get("kind") != "expr" or c.get("runner") != "C":
         return False
     for n, _ in walk(c["e"]):
@@ -1065,6 +1079,8 @@ def compiled_has_pybool(c) -> bool:
         if k in ("&&", "||") and (_flows_pybool(n[1]) or _flows_pybool(n[2])):
             return True
         if k in ("all", "exists") and _flows_pybool(n[3]):
+            return True
+        if k == "idx" and _flows_pybool(n[2]):          # MapType.valid_key_type rejects a native bool
             return True
     return False
 
